@@ -67,6 +67,8 @@ inductive Ev where
   | disk (c : Nat) (r : DRes)
   | origin (c : Nat) (r : ORes)
   | insert (k v : Nat)
+  /-- an explicit insert whose record is disk-only (rejected by the memory filter / on-disk advice) -/
+  | pinsert (k v : Nat)
   | remove (k : Nat)
   | dropCaller (c : Nat)
   | abort
@@ -90,6 +92,12 @@ def takeNotify (s : St) (k : Nat) (r : Res) : St :=
 def insertKV (s : St) (k v : Nat) : St :=
   let s1 := takeNotify s k (.val v)
   { s1 with cache := upd s1.cache k (some v) }
+
+/-- A disk-only insert: `emplace` takes the in-flight entry all the same (its waiters get the value, its
+leader is closed), the record is not indexed and the previous one leaves the index. -/
+def pinsertKV (s : St) (k v : Nat) : St :=
+  let s1 := takeNotify s k (.val v)
+  { s1 with cache := upd s1.cache k none }
 
 /-- `try_set_required`: own closure, else a donated one, else give up and answer `noFetch`. -/
 def trySetRequired (s : St) (k : Nat) (fl : Flight) (fr : Option Nat) (noFetch : Res) : St :=
@@ -154,6 +162,7 @@ def step (s : St) : Ev → St
           | .err => takeNotify s k .errFetch
         else s
   | .insert k v => insertKV s k v
+  | .pinsert k v => pinsertKV s k v
   | .remove k => { s with cache := upd s.cache k none }
   | .dropCaller c =>
     { s with callers := s.callers.map fun x => if x.id = c ∧ x.st = .pending then { x with st := .dropped } else x }
